@@ -23,7 +23,7 @@ Next ==
         /\ CStep(C, iv, o)
         /\ stall'  = IF obs'.coop /\ ~obs'.srcfire THEN stall + 1 ELSE 0
         /\ stall3' = IF obs'.coop /\ ~obs'.sinkfire THEN stall3 + 1 ELSE 0
-        /\ stall2' = IF obs'.rdy /\ obs'.owed /\ ~obs'.srcfire THEN stall2 + 1 ELSE 0
+        /\ stall2' = IF obs'.rdy /\ obs'.act /\ obs'.owed /\ ~obs'.srcfire THEN stall2 + 1 ELSE 0
   /\ l' = l + 1 /\ tid' = tid
 
 EnvLegal == ~envbad                           \* harness obligation, not a property of the code
@@ -38,4 +38,5 @@ DefsWellFormedT == l # 1 \/ LayoutWellFormed(C)
 BoundedProgress     == stall  < C.stallbound
 BoundedProgressSink == stall3 < C.stallbound
 BoundedDelivery     == stall2 < C.stallbound
+BoundedLiveness     == BoundedProgress /\ BoundedProgressSink /\ BoundedDelivery
 =============================================================================
